@@ -113,7 +113,10 @@ class Adapter(object):
   def _set(self, k, r, src=None):
     if r[0] == "ok" and type(r[1]) is CLS[k]:
       self.k, self.x, self.src = k, r[1], src
-      self.hash0 = hash(r[1])
+      h = call(hash, r[1])
+      self.hash0 = h[1] if h[0] == "ok" else None
+      if h[0] != "ok":
+        return dict(viewres(k, r), ok="unhashable:" + h[1])
     else:
       self.k = self.x = self.src = None
     return viewres(k, r)
@@ -187,8 +190,9 @@ class Adapter(object):
     if r[0] != "ok":
       return {"eq": "F", "ne": "T", "heq": "F", "view": viewres(k, r)}
     y = r[1]
+    h = call(lambda: hash(x) == hash(y) and hash(x) == self.hash0)
     return {"eq": same([tf(x == y), tf(y == x)]), "ne": same([tf(x != y), tf(y != x)]),
-            "heq": tf(hash(x) == hash(y) and hash(x) == self.hash0), "view": view(k, y)}
+            "heq": tf(h[1]) if h[0] == "ok" else h[0] + ":" + h[1], "view": view(k, y)}
 
   def props(self):
     x, k = self.x, self.k
@@ -221,7 +225,8 @@ class Adapter(object):
 
   def _view_again(self):
     v = view(self.k, self.x)
-    if hash(self.x) != self.hash0:
+    h = call(hash, self.x)
+    if h[0] != "ok" or h[1] != self.hash0:
       v["ok"] = "hash-changed"
     return v
 
@@ -362,8 +367,8 @@ class Adapter(object):
         r = call(CLS[k], d["text"])
       else:
         save = (self.k, self.x, self.src, self.hash0)
-        self.make_bin(k, form, d["v"], 0)
-        r = ("ok", self.x) if self.x is not None else ("exc", "construct")
+        v = self.make_bin(k, form, d["v"], 0)
+        r = ("ok", self.x) if self.x is not None and v.get("ok") == "T" else ("exc", "construct")
         self.k, self.x, self.src, self.hash0 = save
       if r[0] != "ok" or type(r[1]) is not CLS[k]:
         return None
